@@ -106,6 +106,13 @@ def main():
         pu = [u for u in sel if u.route == 'proof' and res[u.name]['status'] == 'discharged']
         print('cross-check with kissat on %d proof units' % len(pu), flush=True)
         cross = run_units(pu, a.tier, seed, a.jobs, backend='kissat')
+    coverage = {}
+    if a.tier == 'thorough' and os.environ.get('VERIF_NO_COVER') is None:
+        cu = [u for u in sel if u.func and res[u.name]['status'] == 'discharged']
+        print('reachability of the code under contract (cbmc --cover location) on %d units' % len(cu), flush=True)
+        with ThreadPoolExecutor(max_workers=a.jobs) as ex:
+            for c in ex.map(E.coverage_unit, cu):
+                coverage[c['unit']] = c
     findings = load_findings()
     violations, inconclusive, notes, kf_lines = [], [], [], []
     bymap = {u.name: u for u in allu}
@@ -157,7 +164,7 @@ def main():
         print(n)
     wall = time.time() - t0
     if not a.no_evidence:
-        write_evidence(prop, a.tier, seed, sel, res, cross, violations, inconclusive, notes, kf_lines, wall)
+        write_evidence(prop, a.tier, seed, sel, res, cross, violations, inconclusive, notes, kf_lines, wall, coverage)
     if violations:
         for (un, fl, rp, reproduced) in violations:
             print('VIOLATION property=%s replay=%s%s' % (prop, rp, '' if reproduced else ' no-failing-input-found'))
@@ -172,7 +179,8 @@ def main():
     return 0
 
 
-def write_evidence(prop, tier, seed, sel, res, cross, violations, inconclusive, notes, kf_lines, wall):
+def write_evidence(prop, tier, seed, sel, res, cross, violations, inconclusive, notes, kf_lines, wall, coverage=None):
+    coverage = coverage or {}
     proof_u = [u for u in sel if u.route == 'proof']
     obligations = sum(res[u.name].get('obligations', 0) for u in proof_u)
     discharged = sum(res[u.name].get('discharged', 0) for u in proof_u)
@@ -193,6 +201,9 @@ def write_evidence(prop, tier, seed, sel, res, cross, violations, inconclusive, 
             d['bound'] = u.bound_note or ('--unwind %s' % u.unwind)
         if u.name in cross:
             d['cross_check_kissat'] = dict(status=cross[u.name]['status'], solver_s=cross[u.name].get('solver_s'))
+        if u.name in coverage:
+            c = coverage[u.name]
+            d['reachability'] = dict(blocks=c.get('blocks'), reached=c.get('blocks_reached'), source_lines_never_reached=c.get('lines_never_reached'))
         if r['status'] == 'inconclusive':
             d['reason'] = r.get('reason', '')[:600]
         if r.get('assume_statements'):
